@@ -39,7 +39,7 @@ K_MATCH = 8.0         # matching, boundaries: K_MATCH * delta * gamma+^2 gamma-^
 #                       the conditioning of the shooting in v+: the residual T_shock(v+) - Tn is
 #                       only known to rtol*Tn while its signal is the heating (Tp - Tn)
 K_VMIN = 60.0         # |vMin difference| <= K_VMIN * (atol + rtol*vMin)
-K_LTE = 30.0          # |vwLTE difference| <= K_LTE * (atol + (rtol + atol/Tn)*vw)
+K_LTE = 60.0          # |vwLTE difference| <= K_LTE * (atol + (rtol + atol/Tn)*vw)
 TOL_KAPPA = 0.15      # efficiency factor at the default rtol=atol=1e-6: both classes apply
 #                       Simpson's rule on solve_ivp's own adaptive steps, which limits the
 #                       accuracy of kappa to several % (measured: general 5.3%, template 2.2% off
@@ -52,21 +52,47 @@ TOL_KAPPA_TIGHT = 2e-3   # where the classes agree to 4.9e-4 (worst of 135 compa
 
 
 # directed inputs replayed first on every run: exactly equal sound speeds (mu == nu)
-DIRECTED = [(dict(kind="template", alN=0.05, psiN=0.9, cb2=0.25, cs2=0.25, Tn=1.0),
-             [0.1239, 0.1779, 0.3, 0.45, 0.8]),
-            # general solver: unconverged 2x2 solve returned as a matching
-            (dict(kind="template", alN=0.19354, psiN=0.571, cb2=0.202, cs2=0.3301, Tn=138.8),
-             [0.6952983303589946, 0.69])]
+DIRECTED = [
+    # exactly equal sound speeds (mu == nu); fixed in /repo by 0b1c1ae
+    dict(case=dict(kind="template", alN=0.05, psiN=0.9, cb2=0.25, cs2=0.25, Tn=1.0),
+         vws=[0.1239, 0.1779, 0.3, 0.45, 0.8]),
+    # general solver: unconverged 2x2 solve returned as a matching; near-Jouguet hybrid
+    dict(case=dict(kind="template", alN=0.19354, psiN=0.571, cb2=0.202, cs2=0.3301,
+                   Tn=138.8), vws=[0.6952983303589946, 0.69]),
+    # cb2 > cs2, psiN near 1, alN <= (mu-nu)/(3mu): template vwLTE = 0, NaN temperatures,
+    # efficiencyFactor raises
+    dict(case=dict(kind="template", alN=0.01551, psiN=0.988, cb2=0.3209, cs2=0.2812,
+                   Tn=188.3), vws=[0.3, 0.6480766360665376], lte=True, kappa_vws=[0.4]),
+    # cb2 > cs2: kappa from an unconverged general matching
+    dict(case=dict(kind="template", alN=0.06637, psiN=0.813, cb2=0.269, cs2=0.2099,
+                   Tn=94.9), vws=[0.3], kappa_vws=[0.5386161604120203]),
+    # cb2 > cs2 corners of the round-2 seeded changes (must agree on the unchanged tree)
+    dict(case=dict(kind="template", alN=0.15, psiN=0.93, cb2=0.31, cs2=0.24, Tn=1.0),
+         vws=[0.5, 0.7], lte=True),
+    dict(case=dict(kind="template", alN=0.125, psiN=0.63, cb2=0.295, cs2=0.25, Tn=1.0),
+         vws=["vJ-0.01", "vJ-0.02", "vJ-0.03"]),
+]
 
 
-def gen_params(rng):
+def gen_params(rng, ordering=None):
+    """template parameter set; both orderings of the sound speeds are inside the quantifier
+    ("sound speeds 0.2..1/3 in either phase")"""
+    ordering = ordering or rng.choice(["cb<=cs", "cb<=cs", "cb>cs", "cb>cs", "cb>cs-corner"])
     psiN = round(rng.uniform(0.5, 0.995), 3)
     if rng.random() < 0.25:
         psiN = round(rng.uniform(0.5, 0.66), 3)       # corner: large enthalpy drop
     cs2 = round(rng.uniform(0.2, 1 / 3), 4)
-    cb2 = round(rng.uniform(0.2, cs2), 4)             # physical ordering cb2 <= cs2
-    if rng.random() < 0.3:                            # corner: nearly equal sound speeds
-        cb2 = round(max(0.2, cs2 - 10.0 ** rng.uniform(-3.7, -1.8)), 4)
+    if ordering == "cb<=cs":
+        cb2 = round(rng.uniform(0.2, cs2), 4)
+        if rng.random() < 0.3:                        # corner: nearly equal sound speeds
+            cb2 = round(max(0.2, cs2 - 10.0 ** rng.uniform(-3.7, -1.8)), 4)
+    else:
+        cs2 = round(rng.uniform(0.2, 0.32), 4)
+        cb2 = round(rng.uniform(cs2, 1 / 3), 4)
+        if rng.random() < 0.25:
+            cb2 = round(min(1 / 3, cs2 + 10.0 ** rng.uniform(-3.7, -1.8)), 4)
+        if ordering == "cb>cs-corner":                # corner: psiN near 1 with cb2 > cs2
+            psiN = round(rng.uniform(0.9, 0.995), 3)
     # a first-order transition towards the low-T phase needs p-(Tn) > p+(Tn), i.e.
     # alN > (1-psiN)/3 (same convention as tests/test_HydroTemplateModel.py)
     alN = round((1 - psiN) / 3 + 10.0 ** rng.uniform(-3, -0.45), 5)
@@ -92,7 +118,8 @@ def velocities(rng, hg, ht, n):
     cb = ht.cb
     pts = [lo * 1.001 + 1e-5, lo + (min(cb, vJ1) - lo) * rng.uniform(0.005, 0.1),
            cb * (1 - 10 ** rng.uniform(-4, -2)), cb * (1 + 10 ** rng.uniform(-4, -2)),
-           vJ1 - 10 ** rng.uniform(-4, -2), vJ2 + 10 ** rng.uniform(-4, -2), 0.99,
+           vJ1 - 10 ** rng.uniform(-4, -2), vJ1 - rng.uniform(0.003, 0.03),
+           vJ2 + 10 ** rng.uniform(-4, -2), 0.99,
            rng.uniform(0.9, 0.99), rng.uniform(vJ2, 0.99)]
     while len(pts) < n:
         pts.append(rng.uniform(lo, 0.99))
@@ -101,16 +128,22 @@ def velocities(rng, hg, ht, n):
     return out[:n]
 
 
-def compare(ctx, case, stats, rng, n_vw, with_lte=True, with_kappa=True, vws=None):
+def compare(ctx, case, stats, rng, n_vw, with_lte=True, with_kappa=True, vws=None,
+            kappa_vws=None):
     """the property on the two running solvers for one parameter set"""
     try:
         th, hg, ht = build(case)
     except Exception as ex:
         ctx.count("model_rejected", bucket=type(ex).__name__)
         return
-    ctx.count("model", case, bucket="alN %s (1-psiN)/3+0.03" % (
+    ctx.count("model", case, bucket="%s, alN %s (1-psiN)/3+0.03" % (
+        "cb2>cs2" if case["cb2"] > case["cs2"] else "cb2<=cs2",
         "<" if case["alN"] < (1 - case["psiN"]) / 3 + 0.03 else ">="))
     Tn = case["Tn"]
+    # alN <= (mu-nu)/(3 mu) (possible only for cb2 > cs2): (1-3alN)mu - nu >= 0, the sign
+    # convention of wFromAlpha flips; recorded failure class of the TEMPLATE solver
+    small_alpha = case["alN"] <= (ht.mu - ht.nu) / (3 * ht.mu)
+    SMALL = "template-alpha-below-threshold"
 
     def fail(what, key, **kw):
         d = dict(case=case, rtol=RTOL, atol=ATOL, what_fails=what)
@@ -162,6 +195,16 @@ def compare(ctx, case, stats, rng, n_vw, with_lte=True, with_kappa=True, vws=Non
             ctx.count("general_used_template_fallback", bucket=branch)
         mg = [float(x) for x in mg]
         mt = [float(x) for x in mt]
+        if not all(math.isfinite(x) for x in mt) or not all(math.isfinite(float(x))
+                                                             for x in bt):
+            fail("template solver returns non-finite values at vw=%.6g (%s): matching %r, "
+                 "boundaries %r; general %r" % (vw, branch, mt, [float(x) for x in bt], mg),
+                 SMALL if small_alpha else "template-nan", vw=vw, quantity="matching")
+            continue
+        if not all(math.isfinite(x) for x in mg):
+            fail("general solver returns non-finite values at vw=%.6g (%s): %r" % (
+                vw, branch, mg), "general-nan", vw=vw, quantity="matching")
+            continue
         vp, vm, Tp, Tm = mt
         if min(mt) <= 10 * ATOL or min(mg) <= 10 * ATOL:
             # edge of existence (vw -> shock-limited vMin): v+ -> 0 and T- ~ v+^(1/nu) is
@@ -180,7 +223,7 @@ def compare(ctx, case, stats, rng, n_vw, with_lte=True, with_kappa=True, vws=Non
             ctx.count("slow_wall_corner_skipped")
             continue
         stats.append(("matching", worst / tol, dict(case=case, vw=vw, branch=branch)))
-        if worst > tol:
+        if not worst <= tol:
             names = ["vp", "vm", "Tp", "Tm"]
             k = max(range(4), key=lambda i: rel(mg[i], mt[i]))
             # hybrids within 2% of the Jouguet velocity are reported as their own class
@@ -196,10 +239,11 @@ def compare(ctx, case, stats, rng, n_vw, with_lte=True, with_kappa=True, vws=Non
         bgf = [float(x) for x in bg]
         btf = [float(x) for x in bt]
         worstb = max(rel(a, b) for a, b in zip(bgf, btf))
-        stats.append(("boundaries", worstb / (2 * tol), dict(case=case, vw=vw,
-                                                             branch=branch)))
+        # c1, c2 ~ w(Tp) ~ Tp^mu: a relative error in Tp is amplified by mu (<= 6)
+        tolb = (1 + ht.mu) * tol
+        stats.append(("boundaries", worstb / tolb, dict(case=case, vw=vw, branch=branch)))
         ctx.count("boundaries")
-        if worstb > 2 * tol:
+        if not worstb <= tolb:
             fail("findHydroBoundaries at vw=%.6g (%s): general %r, template %r" % (
                 vw, branch, bgf, btf), "boundaries", vw=vw, quantity="boundaries")
     # LTE wall velocity
@@ -213,7 +257,21 @@ def compare(ctx, case, stats, rng, n_vw, with_lte=True, with_kappa=True, vws=Non
             toll = K_LTE * (ATOL + (RTOL + ATOL / Tn) * max(lg, lt))
             stats.append(("vwLTE", abs(lg - lt) / toll, dict(case=case)))
             if abs(lg - lt) > toll:
-                fail("vwLTE: general %.12g, template %.12g" % (lg, lt), "vwLTE",
+                key = "vwLTE"
+                note = ""
+                if small_alpha and lt in (0.0, 1.0) and 0 < lg < 1:
+                    # is the general value a genuine LTE solution?  (conservation, entropy
+                    # T+ g+ = T- g-, shock reaching Tn, converged 2x2 solve)
+                    from WallGo.helpers import gammaSq
+                    vp, vm, Tp, Tm = (float(x) for x in hg.matchDeflagOrHyb(lg))
+                    e1, e2, m1, m2 = base.fluxes(th, vp, vm, Tp, Tm)
+                    ok = hg.success and rel(e1, e2) < 1e-6 and rel(m1, m2) < 1e-6 and abs(
+                        Tp * math.sqrt(gammaSq(vp)) / (Tm * math.sqrt(gammaSq(vm))) - 1
+                    ) < 1e-6 and abs(hg.solveHydroShock(lg, vp, Tp) / Tn - 1) < 100 * dT
+                    if ok:
+                        key = SMALL
+                        note = " (general value verified: fluxes, entropy, shock)"
+                fail("vwLTE: general %.12g, template %.12g%s" % (lg, lt, note), key,
                      quantity="vwLTE")
         except Exception as ex:
             ctx.count("raised", bucket="vwLTE:" + type(ex).__name__)
@@ -228,12 +286,18 @@ def compare(ctx, case, stats, rng, n_vw, with_lte=True, with_kappa=True, vws=Non
         if ht.cb + 2e-3 < min(ht.cs, vJ1) - 2e-3:
             # a hybrid that is still slower than the sound speed in front of the wall
             vws.append(rng.uniform(ht.cb + 2e-3, min(ht.cs, vJ1) - 2e-3))
+        if kappa_vws is not None:
+            vws = list(kappa_vws)
         for vw in vws:
             try:
-                kg, kt = float(hg.efficiencyFactor(vw)), float(ht.efficiencyFactor(vw))
+                kg = float(hg.efficiencyFactor(vw))
+                gsucc = bool(hg.success) or vw > hg.vJ
+                kt = float(ht.efficiencyFactor(vw))
             except Exception as ex:
                 ctx.count("raised", bucket="kappa:" + type(ex).__name__)
                 key = "raises"
+                if small_alpha:
+                    key = SMALL
                 if case["cb2"] == case["cs2"] and isinstance(ex, TypeError):
                     key = "template-no-matching-equal-sound-speeds"
                 fail("efficiencyFactor raised %r at vw=%.6g" % (ex, vw), key, vw=vw,
@@ -243,28 +307,39 @@ def compare(ctx, case, stats, rng, n_vw, with_lte=True, with_kappa=True, vws=Non
                 "hybrid" if vw > ht.cb else "deflagration"))
             tolk = TOL_KAPPA + K_KAPPA_T * ATOL / Tn
             stats.append(("kappa", rel(kg, kt) / tolk, dict(case=case, vw=vw)))
-            if rel(kg, kt) > tolk:
-                fail("efficiency factor at vw=%.6g: general %.9g, template %.9g" % (
-                    vw, kg, kt), "kappa", vw=vw, quantity="kappa")
+            if not rel(kg, kt) <= tolk:
+                # kappa computed from a matching whose 2x2 solve did not converge is a
+                # consequence of the recorded general-unconverged-matching class
+                fail("efficiency factor at vw=%.6g: general %.9g%s, template %.9g" % (
+                    vw, kg, "" if gsucc else " (from an UNCONVERGED matching)", kt),
+                    SMALL if small_alpha else (
+                        "kappa" if gsucc else "kappa-general-unconverged-matching"),
+                    vw=vw, quantity="kappa", general_success=gsucc)
+                continue
             # the same comparison with both classes at tight tolerances
             try:
                 if tight is None:
                     tight = build(case, TIGHT, TIGHT)
-                kg, kt = (float(tight[1].efficiencyFactor(vw)),
-                          float(tight[2].efficiencyFactor(vw)))
+                kg = float(tight[1].efficiencyFactor(vw))
+                gsucc = bool(tight[1].success) or vw > hg.vJ
+                kt = float(tight[2].efficiencyFactor(vw))
             except Exception as ex:
                 ctx.count("raised", bucket="kappa-tight:" + type(ex).__name__)
                 fail("efficiencyFactor (rtol=atol=1e-10) raised %r at vw=%.6g" % (ex, vw),
-                     "raises", vw=vw, quantity="kappa", rtol=TIGHT, atol=TIGHT)
+                     SMALL if small_alpha else "raises", vw=vw, quantity="kappa",
+                     rtol=TIGHT, atol=TIGHT)
                 continue
             ctx.count("kappa_tight")
             stats.append(("kappa_tight", rel(kg, kt) / TOL_KAPPA_TIGHT,
                           dict(case=case, vw=vw)))
-            if rel(kg, kt) > TOL_KAPPA_TIGHT:
-                fail("efficiency factor at vw=%.6g with rtol=atol=1e-10: general %.9g, "
-                     "template %.9g (rel %.3g > %.3g)" % (vw, kg, kt, rel(kg, kt),
-                                                         TOL_KAPPA_TIGHT),
-                     "kappa-tight", vw=vw, quantity="kappa", rtol=TIGHT, atol=TIGHT)
+            if not rel(kg, kt) <= TOL_KAPPA_TIGHT:
+                fail("efficiency factor at vw=%.6g with rtol=atol=1e-10: general %.9g%s, "
+                     "template %.9g (rel %.3g > %.3g)" % (
+                         vw, kg, "" if gsucc else " (from an UNCONVERGED matching)", kt,
+                         rel(kg, kt), TOL_KAPPA_TIGHT),
+                     SMALL if small_alpha else (
+                         "kappa-tight" if gsucc else "kappa-general-unconverged-matching"),
+                     vw=vw, quantity="kappa", rtol=TIGHT, atol=TIGHT, general_success=gsucc)
 
 
 # ------------------------------------------------------------------------------------
@@ -436,9 +511,15 @@ def run(ctx):
                         traceback.format_exc())
                 ctx.broken.append("harness: correspondence rows raised")
     t0 = time.time()
-    for case, vws in DIRECTED:
+    for d in DIRECTED:
+        case = d["case"]
         try:
-            compare(ctx, dict(case), stats, rng, 6, with_lte=False, with_kappa=False, vws=vws)
+            vws = d["vws"]
+            if any(isinstance(v, str) for v in vws):
+                _, _, ht0 = build(case)
+                vws = [ht0.vJ - float(v[3:]) if isinstance(v, str) else v for v in vws]
+            compare(ctx, dict(case), stats, rng, 6, with_lte=d.get("lte", False),
+                    with_kappa="kappa_vws" in d, vws=vws, kappa_vws=d.get("kappa_vws"))
         except Exception:
             ctx.log("harness exception", json.dumps(case), traceback.format_exc())
             ctx.broken.append("harness: compare raised")
@@ -469,7 +550,8 @@ def run(ctx):
             ctx.log("model", json.dumps(case))
     ctx.log("certified evaluations: %d files" % len(procs))
     ctx.cov["rule"] = (
-        "template parameter sets: psiN 0.5..0.995, cs2 0.2..1/3, cb2 0.2..cs2, alN = "
+        "template parameter sets: psiN 0.5..0.995, cs2 and cb2 in 0.2..1/3 in BOTH orderings "
+        "(40%% cb2<=cs2 incl. nearly equal, 60%% cb2>cs2 incl. psiN 0.9..0.995), alN = "
         "(1-psiN)/3 + 10^U(-3,-0.45) (transition towards the low-T phase), Tn = "
         "10^{-2..2} * U(0.5,2); per set wall velocities at vMin, near cb, just below/above "
         "vJ, 0.9..0.99, 0.99 and uniform; vwLTE once, efficiency factor on each branch, "
